@@ -387,7 +387,7 @@ def run(ctx):
             for d in s['props']:
                 if d['n_paths'] != 1:
                     viol.append({"what": "property shape without exactly one path", "shape": s['iri'], "shacl": text, **pipeline.case_json(g, cfg)})
-    base.fragment_s_tie(ctx, dis, stats, ['build_shapes_name_for_class_uri', 'get_shape_label_for_class_uri', 'serializer_prefixize_uri_if_possible', 'prefixize_uri_if_possible'])
+    base.fragment_s_tie(ctx, dis, stats, ['build_shapes_name_for_class_uri', 'get_shape_label_for_class_uri', 'serializer_prefixize_uri_if_possible', 'prefixize_uri_if_possible', 'serializer_tune_token', 'prefixize_shape_name_if_possible', 'serializer_str_of_target_element'])
     return base.std_result(ctx, cases, viol, dis, base.known_lines(kf, reproduced), stats, nontriv, [],
                            "graphs / configurations of C01 plus user namespace dictionaries taking the default shape prefixes ('', weso-s, shapes, "
                            "w-shapes) in random combinations, empty dictionary, custom shapes_namespace, local names with inner dots / dashes / "
